@@ -68,7 +68,7 @@ def resolve(name):
 
 
 def plan(tier):
-    return {"runs": 1200} if tier == "quick" else {"runs": 10000000, "budget": 1200.0}
+    return {"runs": 1200} if tier == "quick" else {"runs": 80000, "budget": 1200.0}
 
 
 def mode_of(seed, idx):
